@@ -127,7 +127,8 @@ func genC18(r *h.Rng, tier string, idx int) *h.Plan {
 			p.Ops = append(p.Ops, h.Op{K: "clear", Loc: loc})
 		case 11:
 			// error cases: missing parameter, ill-typed parameter, unknown URI, failing operation
-			p.Ops = append(p.Ops, h.Op{K: "bad", Loc: loc, S: r.Pick([]string{"missing-location", "missing-fact", "fact-not-json", "fact-is-string", "unknown-uri", "get-unknown-id", "rule-without-action", "pattern-missing", "id-is-map", "take-pattern-missing", "replace-fact-missing", "replace-pattern-missing"})})
+			p.Ops = append(p.Ops, h.Op{K: "bad", Loc: loc, S: r.Pick([]string{"missing-location", "missing-fact", "fact-not-json", "fact-is-string", "unknown-uri", "get-unknown-id", "rule-without-action", "pattern-missing", "id-is-map", "take-pattern-missing", "replace-fact-missing", "replace-pattern-missing",
+				"fact-is-null", "event-is-null", "query-is-null", "pattern-is-null", "rule-is-null", "fact-is-number", "fact-is-list", "fact-is-true", "fact-is-padded-null"})})
 		case 12:
 			// ill-typed parameter, systematically: (operation, parameter, wrong value)
 			cells := c18IllCells()
@@ -231,6 +232,34 @@ func c18Request(op h.Op) (uri string, params map[string]interface{}) {
 		case "fact-not-json":
 			uri = "/loc/facts/add"
 			params["fact"] = "RAW:{not json"
+		case "fact-is-null":
+			uri = "/loc/facts/add"
+			params["fact"] = "RAW:null"
+		case "fact-is-padded-null":
+			uri = "/loc/facts/add"
+			params["fact"] = "RAW: null "
+		case "fact-is-number":
+			uri = "/loc/facts/add"
+			params["fact"] = "RAW:5"
+		case "fact-is-list":
+			uri = "/loc/facts/add"
+			params["fact"] = "RAW:[1]"
+		case "fact-is-true":
+			uri = "/loc/facts/add"
+			params["fact"] = "RAW:true"
+		case "event-is-null":
+			uri = "/loc/events/ingest"
+			params["event"] = "RAW:null"
+		case "query-is-null":
+			uri = "/loc/facts/query"
+			params["query"] = "RAW:null"
+		case "pattern-is-null":
+			uri = "/loc/facts/search"
+			params["pattern"] = "RAW:null"
+		case "rule-is-null":
+			uri = "/loc/rules/add"
+			params["id"] = "r1"
+			params["rule"] = "RAW:null"
 		case "fact-is-string":
 			uri = "/loc/facts/add"
 			params["fact"] = "RAW:\"just a string\""
